@@ -141,10 +141,13 @@ func (g *Gen) comment(name string) string {
 	n := 1 + sym.Choose("commentlen", sym.Param("commentlen", 2))
 	c := sym.String("comment", n)
 	for i := 0; i < n; i++ {
-		// printable ASCII; the last byte is not a space (the lexer trims them)
-		sym.Assume(sym.And(c[i] >= 0x20, c[i] <= 0x7e))
+		// printable ASCII or any byte of a multi-byte character (comment text is copied byte for byte);
+		// the last byte is not a space (the lexer trims them)
+		sym.Assume(sym.And(c[i] >= 0x20, c[i] != 0x7f))
 	}
-	sym.Assume(c[n-1] != ' ')
+	// the last byte is visible ASCII: trailing white space of a comment (ASCII or Unicode, e.g. U+00A0 at the
+	// very end of the output) is trimmed by the lexer / the final TrimSpace and is outside the claim
+	sym.Assume(sym.And(c[n-1] > ' ', c[n-1] <= 0x7e))
 	return c
 }
 
@@ -797,6 +800,16 @@ func (g *Gen) Stmt(body, closed bool) bool {
 		if g.inFunc > 0 {
 			kinds = append(kinds, sReturn)
 		}
+		if mask := sym.Param("stmtmask", 0); mask != 0 {
+			// restrict statements to the kinds whose bit is set (expression statements always)
+			var sel []int
+			for _, k := range kinds {
+				if k == sExpr || mask&(1<<uint(k)) != 0 {
+					sel = append(sel, k)
+				}
+			}
+			kinds = sel
+		}
 		kind = kinds[sym.Choose("stmt", len(kinds))]
 	} else if g.Palette > 0 && sym.Choose("emptyblock", 2) == 1 {
 		// with palette leaves, an empty block is available at no cost
@@ -926,9 +939,35 @@ func (g *Gen) Stmt(body, closed bool) bool {
 
 // Program generates a whole program of 1..maxStmts statements.
 func (g *Gen) Program(maxStmts int) *Script {
-	n := 1 + sym.Choose("nprog", maxStmts)
-	g.emit(KProgram, n)
-	g.stmtList(n, token.EOF)
+	if sym.Param("wrapfunc", 0) == 1 {
+		// the statements form the body of one function declaration (at no cost):
+		// `return` is available from the first statement on
+		g.emit(KProgram, 1)
+		g.site = true
+		g.StmtFirst = append(g.StmtFirst, len(g.Toks))
+		g.emit(KFuncDecl)
+		g.kw(token.FUNCTION)
+		g.tok(token.IDENT, "f")
+		g.emit(KIdent)
+		g.kw(token.LPAREN)
+		g.emit(0)
+		g.kw(token.RPAREN)
+		g.kw(token.LBRACE)
+		g.nest = append(g.nest, NestFunction)
+		g.inFunc++
+		n := 1 + sym.Choose("nprog", maxStmts)
+		g.emit(KBlock, n)
+		g.stmtList(n, token.RBRACE)
+		g.emit(KEnd)
+		g.inFunc--
+		g.nest = g.nest[:len(g.nest)-1]
+		g.site = true
+		g.BlockEnds = append(g.BlockEnds, g.kw(token.RBRACE))
+	} else {
+		n := 1 + sym.Choose("nprog", maxStmts)
+		g.emit(KProgram, n)
+		g.stmtList(n, token.EOF)
+	}
 	g.emit(KEnd)
 	s := &Script{Toks: g.Toks}
 	s.EOF = symTok(token.EOF, "")
